@@ -17,6 +17,7 @@ Section Api.
   Variable add : V -> V -> V.             (* only used by COO.from_iter on duplicate dict keys (never on a dict) *)
   Variable vzero : V.
   Variable f : list V -> V.
+  Variable scal : nat -> bool.            (* operand positions holding a Python / NumPy scalar *)
   Variable srt : list Z -> list nat.
 
   Inductive api_arg := AArr (x : repr V) | ADn (d : dense V).
@@ -45,7 +46,7 @@ Section Api.
     | None => Raise ValueError
     | Some o =>
       ops <- mapM to_operand args ;;
-      match elemwise V veqb vzero f srt ops with
+      match elemwise_sc V veqb vzero f scal srt ops with
       | OutErr e => Raise e
       | OutDense d => Ok (inr d)
       | OutSparse r => x <- convert veqb add (hop_of (result_format o (c_shape r))) (RCoo r) ;; Ok (inl x)
